@@ -5,6 +5,8 @@ Contracts / lemmas (sidecar):
                         compute_abc_nobc contract: weighted column sums of the assembled operator vanish              (lemma.column-sums)
                         => one sweep changes the trapezoid mass of a line only through the absorbing terms, which C02 proves are
                            added only on the all-zero / all-one corner lines
+  integration{1..5}D.c  15 per-axis kernels: absorbing terms added exactly on the all-zero / all-one corner lines (clauses system.b.* and frame of the
+                        C02 kernel contract, re-discharged here)
   Integration.py        _inject_mutations_{1..5}D: writes exactly at the unit vectors of populations that are neither frozen nor nomut, with
                         w(e_k) x_k[1] dphi = dt theta0/2; nothing else changes; returns phi
                         two_pops..five_pops: (exists k: frozen_k and some migration rate into or out of k != 0) <=> ValueError, before any integration
@@ -29,7 +31,17 @@ def tasks(tier):
         ts.append(Task('props.wire:run', name='C04/wire.inject.%d' % K, fname='c04_inject', kwargs=dict(K=K), timeout=600))
     for name, K in (('two_pops', 2), ('three_pops', 3), ('four_pops', 4), ('five_pops', 5)):
         ts.append(Task('props.wire:run', name='C04/wire.frozen-migration.' + name, fname='c04_frozen_migration', kwargs=dict(name=name, K=K), timeout=300))
+    from contracts.c_kernels import kernel_list
+    for relpath, fname in kernel_list():
+        if 'precalc' not in fname:
+            ts.append(Task('props.C04:t_kernel_abs', name='C04/kernel-abs.' + fname, relpath=relpath, fname=fname, timeout=900))
     return ts + bounded_tasks('C04', tier)
+
+
+def t_kernel_abs(relpath, fname):
+    """the absorbing-term placement and frame obligations of the kernel contract (same contract as C02, only these clauses are sent to the solver)"""
+    from contracts.c_kernels import verify_kernel
+    return verify_kernel(relpath, fname, pid='C04', only=['/system.b', '/frame', '/line-digits', '/structure'])
 
 
 def t_lemmas():
